@@ -1215,6 +1215,8 @@ def run_case(case, hooks=False):
             for op in case['history']:
                 try:
                     if op[0] == 'add':
+                        if op[1] not in by_id:
+                            continue
                         tp = by_id[op[1]]
                         uid = svc.add_custom(tp['path'], tp['line'], dict(tp.get('args', {})), [],
                                              [MetricDefinition(tp['id'] + '#' + m, 'COUNTER', expression='1')
@@ -1226,7 +1228,8 @@ def run_case(case, hooks=False):
                         idmap[uid] = 'invalid'
                         uid_of.setdefault('invalid', []).append(uid)
                     elif op[0] == 'remove':
-                        svc.remove_custom(uid_of[op[1]])
+                        if op[1] in uid_of:
+                            svc.remove_custom(uid_of[op[1]])
                     elif op[0] == 'remove_invalid':
                         for u in uid_of.get('invalid', []):
                             svc.remove_custom(u)
